@@ -317,7 +317,7 @@ class Interp:
                 if not self.symbolic_loops:
                     raise
                 # one symbolic iteration: every name of the target denotes "the value in an arbitrary iteration"
-                self.path.events.append(('loop', show(itv), ast.unparse(st.target)))
+                self.path.events.append(('loop', show(itv), ast.unparse(st.target), itv))
                 item_len = itv.attrs.get('__item_length__') if isinstance(itv, Sym) else None
                 for nm in ast.walk(st.target):
                     if isinstance(nm, ast.Name):
